@@ -223,7 +223,7 @@ def main(prop, tier, seed, replay_path=None):
     rnd = random.Random(seed + 11)
     verdict = Verdict(prop)
     mode = "algebra" if prop == "C16" else "convert"
-    nss = ["numpy", "torch", "jax"]
+    nss = ["numpy", "torch", "jax"] if tier != "quick" else ["numpy", ["torch", "jax"][seed % 2]]
     consts = {"NRows": "= 4", "Classes": '= {"Base", "Samples", "SMC"}',
               "Namespaces": "= {" + ", ".join(f'"{n}"' for n in nss) + "}",
               "Widths": "= {32, 64}", "Depth": "= 2", "Mode": f'= "{mode}"'}
